@@ -18,6 +18,7 @@ EXPLANATION = (
     "records carrying the local id before any table access. R4: verify_enr compares the record's UDP socket of the "
     "observed family with the observed source and incoming Established is guarded by it. R5: a discovered record replaces "
     "a stored one only past stored.seq() < record.seq() (strict), under the key of the record's own node id.")
+EXPLANATION += (" Added while testing: R5 also covers the session path (the attached record becomes the session's record only if none is known or it is strictly newer). R6: IpMode::get_contactable_addr takes an IPv6 endpoint only where the IPv4-mapped test is applied to it.")
 NOT_DECIDED = ["dual-stack address selection values", "the table's own structural integrity (C07)"]
 TRUSTED = ["Enr::seq / node_id"]
 
